@@ -586,9 +586,22 @@ def rule_raise_exit(model):
                   'class no longer match', node=mb.node, ctx=mb)
     # the name test of find_handler: equality with the class name, the
     # empty name, or match_base
-    src = norm(fh.node)
+    fh_nodes = list(model.closure_nodes(fh))
+    have = {
+        '__name__': any(isinstance(x, ast.Attribute) and
+                        x.attr in ('__name__', '__qualname__')
+                        for x in fh_nodes),
+        "''": any((isinstance(x, ast.Compare) and any(
+            isinstance(y, ast.Constant) and y.value == ''
+            for y in [x.left] + x.comparators)) or (
+            isinstance(x, ast.UnaryOp) and isinstance(x.op, ast.Not) and
+            isinstance(x.operand, ast.Name)) for x in fh_nodes),
+        'match_base': any(isinstance(x, ast.Call) and
+                          norm(x.func).split('.')[-1] == 'match_base'
+                          for x in fh_nodes),
+    }
     for need in ('__name__', "''", 'match_base'):
-        if need not in ast.unparse(fh.node):
+        if not have[need]:
             r.finding(fh.where, f'handler test lacks {need}', 'handler '
                       'matching lost one of: exact class name, bare except, '
                       'base class', node=fh.node, ctx=fh)
